@@ -211,11 +211,12 @@ PROPS = {
         "lean_modules": ["QrlewModel.Props.C14"],
         "streams": [
             {"name": "sqlx", "n_quick": 30000, "n_thorough": 1500000, "compare": False, "min_per_proc": 500},
+            {"name": "values", "n_quick": 6000, "n_thorough": 300000, "compare": True, "min_per_proc": 1000},
         ],
-        "rule": "sqlx: generated queries of the supported fragment over t1(a PK, b, c, d, e nullable), t2(a, f, g), t3(k unique, h, w unique float): projections with scalar expressions (arithmetic, abs, CASE, greatest, coalesce, upper), WHERE (comparisons, IN, AND/OR, text equality), DISTINCT, total ORDER BY with LIMIT/OFFSET, aggregations (sum/count/avg/min/max/count distinct, mixed aggregate-scalar items) grouped by column / expression, HAVING, INNER/LEFT/RIGHT/FULL joins ON, USING, NATURAL, derived tables, CTEs, UNION/UNION ALL/INTERSECT/EXCEPT, functions of unique columns; x conforming database instances (empty tables, boundary values, NULLs, duplicate and unmatched join keys, unique keys distinct); the relation rendered by the library is executed on SQLite next to the original text; non-trivial = non-empty result",
+        "rule": "values: literal value lists (1..6 integers / texts / floats drawn from pools of 1..7 values, so repeated values are adjacent in some lists and apart in others) built with the Values builder, alone and inner-joined to t3 on its unique key: declared-unique flag compared with the Lean model valuesUnique, executed rows checked against the declared constraints; sqlx: generated queries of the supported fragment over t1(a PK, b, c, d, e nullable), t2(a, f, g), t3(k unique, h, w unique float): projections with scalar expressions (arithmetic, abs, CASE, greatest, coalesce, upper), WHERE (comparisons, IN, AND/OR, text equality), DISTINCT, total ORDER BY with LIMIT/OFFSET, aggregations (sum/count/avg/min/max/count distinct, mixed aggregate-scalar items) grouped by column / expression, HAVING, INNER/LEFT/RIGHT/FULL joins ON, USING, NATURAL, derived tables, CTEs, UNION/UNION ALL/INTERSECT/EXCEPT, functions of unique columns; x conforming database instances (empty tables, boundary values, NULLs, duplicate and unmatched join keys, unique keys distinct); the relation rendered by the library is executed on SQLite next to the original text; non-trivial = non-empty result",
         "trusted_base": COMMON_TRUST + ["SQLite 3.40 + harness shims as executor"],
         "assumptions": ["base tables honour their declared unique / primary-key constraints (generated that way)"],
-        "technique": "Lean 4 proof (uniqueness is preserved by functions injective on the values, by filters, and by inner joins whose other side has a unique key; kernel-checked counterexample for lossy casts) + execution oracle on columns declared unique",
+        "technique": "Lean 4 proof (uniqueness is preserved by functions injective on the values, by filters, and by inner joins whose other side has a unique key; kernel-checked counterexample for lossy casts; a literal list is flagged unique iff it has no repeated value) + execution oracle on columns declared unique",
         "level_text": "Theorems (Props/C14.lean) for bags of any size: a column stays duplicate-free under projection through any function injective on its values, under filters, and on the left side of an inner join whose right join key is unique; ⌊1.2⌋ = ⌊1.4⌋ shows a lossy cast is not such a function. Generated queries (incl. functions of unique columns, group-by keys, joins) are executed on SQLite and every column the relation declares unique is checked for duplicates.",
         "level_note": "Trusted: Lean kernel; SQLite and shims. Modelled, not verified: which functions the code lists as bijections is observed through execution (no translator for that list).",
     },
